@@ -7,6 +7,8 @@
 //! and to the implementation's component list (testing).
 //! Oracle (independent of the model): transitive closure (Warshall on bit rows up to 64 vertices, BFS on
 //! bit sets above) -> partition / soundness / completeness / largest-is-max on the real output.
+//! The streams that reach the rest of the two anchor files (accessors of graph.rs, the two searches called
+//! directly, Graph::from_files, recursion depth in a forked child) are in c18_net.rs.
 use crate::ctx::Ctx;
 use crate::rng::Rng;
 use routee_compass_core::algorithm::component::scc::{
@@ -782,5 +784,5 @@ pub fn run(ctx: &mut Ctx) -> &'static str {
         let spec = malformed(&mut rng);
         run_case(ctx, idx, &spec);
     }
-    "corpus (scc.rs fixture, direction / finishing-order / tie witnesses), every digraph with self loops on <= 3 (quick) / <= 4 (thorough) vertices, the 3-vertex ones again with shuffled edge ids, random 4-5 vertex masks, structured random graphs up to 300 (quick) / 1000 (thorough) vertices (sparse with isolated vertices, medium, dense, planted components, rings of rings, chains with nested back edges; self loops, parallel and antiparallel edges; vertex ids and edge ids permuted), long chains up to 1500 / 4000 vertices, and malformed Graph values (correspondence only); non-trivial = well-formed graph with an edge between two distinct vertices; distinct by full case text"
+    "component stream: corpus (scc.rs fixture, direction / finishing-order / tie witnesses), every digraph with self loops on <= 3 (quick) / <= 4 (thorough) vertices, the 3-vertex ones again with shuffled edge ids, random 4-5 vertex masks, structured random graphs up to 300 (quick) / 1000 (thorough) vertices (sparse with isolated vertices, medium, dense, planted components, rings of rings, chains with nested back edges; self loops, parallel and antiparallel edges; vertex ids and edge ids permuted), long chains up to 1500 / 4000 vertices, malformed Graph values (correspondence only); deep stream: chains / cycles / nested cycles 6 000 - 24 000 vertices deep in a forked child inside a default-stack thread (modelled) and 100 000 - 1 000 000 vertices (oracle only: independent Tarjan); accessor stream: every public function of graph.rs on well-formed and malformed Graph values with in-range, boundary and far ids; search stream: depth_first_search / reverse_depth_first_search called directly from arbitrary states; file stream: Graph::from_files (plain / gzip, declared / scanned counts, absent, empty, undecodable, truncated gzip, end point beyond rows, ids not rows, declared count too small / larger) followed by the analysis; non-trivial = well-formed graph with an edge between two distinct vertices, or any accessor / search / loaded-file case; distinct by full case text"
 }
